@@ -355,15 +355,16 @@ package core
 // Re-resolution of one directive during expansion (C10, C11): the copy is attached by processContext (C11's contract).
 // After the children of a directive WITHOUT "( )" have been walked, the context cursor stays where that walk left it: a
 // directive that follows in the pasted text belongs where it would belong in the expanded text. After the children of
-// a directive WITH "( )", the cursor is the parent the copy was attached to. (Verified for these two clauses only.)
+// a directive WITH "( )", the cursor is the parent the copy was attached to. (Verified for these two clauses only; they
+// are also what "an explicit ( ) context versus the equivalent implicit one" of C08 rests on in the expansion pass.)
 //@ func (*JApiCore).processDirective(core, d)
 //@   property C10,C11
 //@   attr assumesafe
 //@   requires core != nil && macrosOK(core) && childrenOK() && directive.dirOK(d) && pasteDepthOK(core)
 //@   modifies anything
-//@   ensures[C10,C11,@context-after-implicit-subtree] imp(result == nil && old(d.type_) != directive.Paste && !d.HasExplicitContext && core.gWalks > old(core.gWalks),
+//@   ensures[C10,C11,C08,@context-after-implicit-subtree] imp(result == nil && old(d.type_) != directive.Paste && !d.HasExplicitContext && core.gWalks > old(core.gWalks),
 //@       core.currentContextDirective == core.gListCtx)
-//@   ensures[C10,C11,@context-after-explicit-subtree] imp(result == nil && old(d.type_) != directive.Paste && d.HasExplicitContext, core.currentContextDirective == dd.Parent)
+//@   ensures[C10,C11,C08,@context-after-explicit-subtree] imp(result == nil && old(d.type_) != directive.Paste && d.HasExplicitContext, core.currentContextDirective == dd.Parent)
 //@ func (*JApiCore).collectRulesFromDirectives(core, dd)
 //@   attr trusted
 //@   requires core != nil
